@@ -36,7 +36,7 @@ def jobs(tier):
         if not dup:
             J.append(Job(b, "three_callers", "1,0,0,0", p1, env))
         if not q or (b == "gp_mb"):
-            J.append(Job(b, "three_callers", "1,0,1,0", p1, env))
+            J.append(Job(b, "three_callers", "1,0,1,0", p1, env, workers=12))
         if not dup:
             J.append(Job(b, "two_readers", "2,0,0,0", p1, env))
         if b == "gp_bp":
